@@ -845,6 +845,7 @@ func runNodeGrid(c *fw.Ctx, b *base) bool {
 }
 
 func run(c *fw.Ctx) {
+	c.ConcPart() // schedule part first: it has its own (small) share of the budget
 	setup()
 	buildTorsion()
 	if torsErr != "" {
